@@ -235,6 +235,9 @@ type EnvEvent struct {
 	Value int    `json:"value,omitempty"`
 	Path  string `json:"path,omitempty"`
 	Text  string `json:"text,omitempty"`
+	// When (L2): "restore:N" = right after the Nth write issued from the restore
+	// path; "" = by At / AtSeq
+	When string `json:"when,omitempty"`
 }
 
 // FaultSpec injects one fault at the Nth operation (0-based) of kind Op on Target.
